@@ -74,8 +74,45 @@ func getSeedRoles(c *Ctx) *seedRoles {
 		if f.MentionsObj(f.Body, false, r.list) && f.Lit == nil {
 			r.encoder = f
 		}
-		if r.wmap != nil && f.MentionsObj(f.Body, false, r.wmap) {
-			r.dec = f
+	}
+	// the decoder: the smallest function that, with its helpers expanded, looks words up in the map and calls a
+	// function the encoder calls too (the checksum); failing that, the function mentioning the map
+	if r.wmap != nil && r.encoder != nil {
+		encCallees := map[*types.Func]bool{}
+		for _, call := range r.encoder.Calls(true) {
+			if call.Fn != nil && call.Fn.Pkg() == pkg.Types {
+				encCallees[call.Fn] = true
+			}
+		}
+		vs := c.P.Views("wallet", ir.ExpandOpt{Key: "all"})
+		best := 0
+		for _, f := range c.P.PkgFuncs("wallet") {
+			if f.Obj.Type().(*types.Signature).Recv() != nil || f == r.encoder {
+				continue
+			}
+			v := vs.Of(f)
+			if !v.MentionsObj(v.Body, false, r.wmap) {
+				continue
+			}
+			shares := false
+			for _, call := range v.Calls(true) {
+				if encCallees[call.Fn] {
+					shares = true
+				}
+			}
+			if !shares {
+				continue
+			}
+			if n := len(v.Graph().Nodes); r.dec == nil || n < best {
+				r.dec, best = v, n
+			}
+		}
+		if r.dec == nil {
+			for _, f := range c.P.PkgFuncs("wallet") {
+				if f.Obj.Type().(*types.Signature).Recv() == nil && f.MentionsObj(f.Body, false, r.wmap) {
+					r.dec = f
+				}
+			}
 		}
 	}
 	if r.wmap == nil || r.encoder == nil || r.dec == nil {
